@@ -7,6 +7,13 @@ pub open spec fn valid_prefix(p: Seq<char>) -> bool {
     &&& 1 <= p.len() <= 83
     &&& forall|i: int| 0 <= i < p.len() ==> 33 <= (#[trigger] p[i]) as u32 <= 126 && !(65 <= p[i] as u32 <= 90)
 }
+/// what `validate_address_prefix` accepts, over the UTF-8 bytes: 1..=83 bytes, all printable ASCII, not mixed case
+pub open spec fn prefix_acceptable(p: Seq<char>) -> bool {
+    let b = str_bytes(p);
+    &&& 1 <= b.len() <= 83
+    &&& forall|i: int| 0 <= i < b.len() ==> 33 <= #[trigger] b[i] <= 126
+    &&& !((exists|i: int| 0 <= i < b.len() && 97 <= #[trigger] b[i] <= 122) && (exists|i: int| 0 <= i < b.len() && 65 <= #[trigger] b[i] <= 90))
+}
 pub open spec fn no_upper(p: Seq<char>) -> bool {
     forall|i: int| 0 <= i < p.len() ==> !(65 <= (#[trigger] p[i]) as u32 <= 90)
 }
